@@ -556,7 +556,7 @@ def unsafe_census(ctx, facts, cfg):
         if im.get('unsafe') and im.get('trait') != 'std::clone::TrivialClone':   # emitted by #[derive(Clone)] on Copy types
             ctx.violation(R, 'unsafe-impl:%s' % im.get('trait'), 'unsafe impl %s for %s' % (im.get('trait'), im.get('self_ty')), site=im['span'], fn=im.get('self_ty'), cfg=cfg)
     ctx.ok(R, 'census@%s' % cfg, {'unsafe_blocks': n_blocks, 'unsafe_operations_classified': n_ops})
-    ctx.floor(R, 19 if cfg != 'aarch64' else 9, n_blocks, 'unsafe blocks (cfg %s)' % cfg, cfg=cfg)
+    ctx.floor(R, 12 if cfg != 'aarch64' else 6, n_blocks, 'unsafe blocks (cfg %s)' % cfg, cfg=cfg)
 
 
 # ------------------------------------------------------------------ (d)
